@@ -416,6 +416,7 @@ func isRecvValue(v ssa.Value) bool {
 // ---- ERR-4: deny / end tables ----
 
 func (c *Ctx) err4() {
+	c.err4Walk()
 	ef := c.errflow()
 	deny, end := c.denyEnd()
 	both, _ := c.sliceLiteralOrAppend("denyAndEndErrs")
@@ -655,15 +656,222 @@ func (c *Ctx) err5() {
 				continue
 			}
 			d := p.Events[i].Args[0]
-			if c.boundedIdle(d) {
-				t.pass()
-			} else {
+			up, lo := c.idleBounds(p, rb, i, d)
+			switch {
+			case !up:
 				t.fail(p, i, "the backoff duration %s is not bounded by ReconnectWaitMax / one second", Expr(d))
+			case !lo:
+				t.fail(p, i, "the backoff duration %s has no lower bound (ReconnectWaitMin, ReconnectWaitMax or a positive constant): the channel may close at once and the read loop spins", Expr(d))
+			default:
+				t.pass()
 			}
 		}
+		// the ramp-up state that is kept for the next call stays bounded too,
+		// or the doubling overflows after enough consecutive failures
+		ramp := c.acc("ERR-5", rb, "ramp-up-state-bounded")
+		for _, p := range c.Paths("ERR-5", rb) {
+			for i := range p.Events {
+				e := &p.Events[i]
+				if e.Kind != pathx.KStore || e.Fn != rb || pathx.RoleOfAddr(e.Addr).Key() != "Client.reconnectWait" {
+					continue
+				}
+				v := e.Instr.(*ssa.Store).Val
+				choice := phiChoices(p, rb)
+				for {
+					phi, isPhi := strip(v).(*ssa.Phi)
+					if !isPhi || choice[phi] == nil {
+						break
+					}
+					v = choice[phi]
+				}
+				ok, _ := c.idleBounds(p, rb, i, v)
+				if bo, isB := strip(v).(*ssa.BinOp); isB && !ok {
+					switch bo.Op {
+					case token.MUL, token.SHL, token.ADD:
+						_, kx := intConst(bo.X)
+						_, ky := intConst(bo.Y)
+						ux, _ := c.idleBounds(p, rb, i, bo.X)
+						uy, _ := c.idleBounds(p, rb, i, bo.Y)
+						ok = ky && ux || kx && uy && bo.Op != token.SHL
+					}
+				}
+				if ok {
+					ramp.pass()
+				} else {
+					ramp.fail(p, i, "reconnectWait is set to %s, which is not derived from a value clamped to ReconnectWaitMax: with enough consecutive failed connects the doubling overflows and the backoff turns negative (the channel closes at once)", Expr(v))
+				}
+			}
+		}
+		ramp.done(1, "the stored wait is a constant multiple of the clamped wait")
 		a.done(1, "nil only behind errors.Is(err, ErrClosed)")
 		t.done(2, "every returned channel is closed by a timer of bounded duration")
 	}
+}
+
+// idleBounds judges a duration as it stands at event upto of path p: bounded
+// above by ReconnectWaitMax (or constant) and below by ReconnectWaitMin (or a
+// positive constant), through min/max or through the comparisons the path has
+// taken (if idle > max { idle = max }).
+func (c *Ctx) idleBounds(p *pathx.Path, fn *ssa.Function, upto int, v ssa.Value) (upper, lower bool) {
+	choice := phiChoices(p, fn)
+	var expand func(v ssa.Value, d int) ssa.Value
+	expand = func(v ssa.Value, d int) ssa.Value {
+		v = strip(v)
+		if phi, ok := v.(*ssa.Phi); ok && d < 12 && choice[phi] != nil {
+			return expand(choice[phi], d+1)
+		}
+		return v
+	}
+	rel := func(v ssa.Value, role string) (le, ge bool) {
+		for _, cm := range assumed(p, 0, upto) {
+			for _, k := range []cmp{cm, cm.swapped()} {
+				x := expand(k.X, 0)
+				if x != v && (roleKey(x) == "" || roleKey(x) != roleKey(v)) || roleKey(k.Y) != role {
+					continue // (two loads of the same read-only Config field are the same value)
+				}
+				switch k.Op {
+				case token.LEQ, token.LSS, token.EQL:
+					le = true
+				}
+				switch k.Op {
+				case token.GEQ, token.GTR, token.EQL:
+					ge = true
+				}
+			}
+		}
+		return
+	}
+	var up, lo func(v ssa.Value, d int) bool
+	up = func(v ssa.Value, d int) bool {
+		v = expand(v, 0)
+		if d > 12 {
+			return false
+		}
+		if roleKey(v) == "Config.ReconnectWaitMax" {
+			return true
+		}
+		if le, _ := rel(v, "Config.ReconnectWaitMax"); le {
+			return true
+		}
+		switch x := v.(type) {
+		case *ssa.Const:
+			return true
+		case *ssa.Phi:
+			for _, e := range x.Edges {
+				if !up(e, d+1) {
+					return false
+				}
+			}
+			return true
+		case *ssa.Call:
+			if b, ok := x.Call.Value.(*ssa.Builtin); ok {
+				switch b.Name() {
+				case "min":
+					for _, a := range x.Call.Args {
+						if up(a, d+1) {
+							return true
+						}
+					}
+				case "max":
+					for _, a := range x.Call.Args {
+						if !up(a, d+1) && roleKey(a) != "Config.ReconnectWaitMin" {
+							return false
+						}
+					}
+					return false // max(x, Min) may exceed Max when Min > Max: demand a min around it
+				}
+			}
+		}
+		return false
+	}
+	lo = func(v ssa.Value, d int) bool {
+		v = expand(v, 0)
+		if d > 12 {
+			return false
+		}
+		if k := roleKey(v); k == "Config.ReconnectWaitMax" || k == "Config.ReconnectWaitMin" {
+			return true
+		}
+		if _, ge := rel(v, "Config.ReconnectWaitMin"); ge {
+			return true
+		}
+		switch x := v.(type) {
+		case *ssa.Const:
+			n, ok := intConst(x)
+			return ok && n > 0
+		case *ssa.Phi:
+			for _, e := range x.Edges {
+				if !lo(e, d+1) {
+					return false
+				}
+			}
+			return true
+		case *ssa.Call:
+			if b, ok := x.Call.Value.(*ssa.Builtin); ok {
+				switch b.Name() {
+				case "min":
+					for _, a := range x.Call.Args {
+						if !lo(a, d+1) {
+							return false
+						}
+					}
+					return true
+				case "max":
+					for _, a := range x.Call.Args {
+						if lo(a, d+1) {
+							return true
+						}
+					}
+				}
+			}
+		}
+		return false
+	}
+	return up(v, 0), lo(v, 0)
+}
+
+// lowerBoundedIdle accepts: positive constant, ReconnectWaitMax, max(…, ReconnectWaitMin …), min of such.
+func (c *Ctx) lowerBoundedIdle(v ssa.Value, d int) bool {
+	if d > 12 {
+		return false
+	}
+	if k := roleKey(v); k == "Config.ReconnectWaitMax" || k == "Config.ReconnectWaitMin" {
+		return true
+	}
+	switch x := strip(v).(type) {
+	case *ssa.Const:
+		n, ok := intConst(x)
+		return ok && n > 0
+	case *ssa.Phi:
+		for _, e := range x.Edges {
+			if !c.lowerBoundedIdle(e, d+1) {
+				return false
+			}
+		}
+		return true
+	case *ssa.Call:
+		if b, ok := x.Call.Value.(*ssa.Builtin); ok {
+			switch b.Name() {
+			case "min":
+				for _, a := range x.Call.Args {
+					if !c.lowerBoundedIdle(a, d+1) {
+						return false
+					}
+				}
+				return true
+			case "max":
+				for _, a := range x.Call.Args {
+					if c.lowerBoundedIdle(a, d+1) {
+						return true
+					}
+				}
+			}
+		}
+	case *ssa.UnOp:
+		k := roleKey(x)
+		return k == "Config.ReconnectWaitMax" || k == "Config.ReconnectWaitMin"
+	}
+	return false
 }
 
 // boundedIdle accepts: constant, Config.ReconnectWaitMax, min(x, ReconnectWaitMax).
@@ -781,7 +989,7 @@ func init() {
 func (c *Ctx) err7() {
 	wire := c.wireCapable()
 	n := 0
-	for _, name := range []string{"(*Client).Ping", "(*Client).subscribeLevel", "(*Client).Unsubscribe", "(*Client).publish", "(*Client).write", "(*Client).writeNoWait", "(*Client).writeBuffers", "(*Client).writeBuffersNoWait"} {
+	for _, name := range []string{"(*Client).Ping", "(*Client).subscribeLevel", "(*Client).Unsubscribe", "(*Client).publish", "(*Client).Disconnect", "(*Client).write", "(*Client).writeNoWait", "(*Client).writeBuffers", "(*Client).writeBuffersNoWait"} {
 		fn := c.Fn("ERR-7", name)
 		if fn == nil {
 			continue
@@ -818,4 +1026,71 @@ func (c *Ctx) err7() {
 		a.done(1, "every path with a failed write returns an error built from that failure")
 	}
 	c.S.Floor("ERR-7", "failed-write paths of request methods", n, 8)
+}
+
+// err4Walk: nonNilIsAny searches the whole error tree. A false answer is
+// given only when the stack of pending siblings (from Unwrap() []error) is
+// empty; a true answer only behind a match (identity or Is). Stopping at the
+// first nil Unwrap, as errors.Is may seem to do, would miss the siblings of a
+// joined error: errors.Join(ErrClosed, cause) must classify whatever comes
+// first.
+func (c *Ctx) err4Walk() {
+	fn := c.Fn("ERR-4", "nonNilIsAny")
+	if fn == nil {
+		return
+	}
+	f := c.acc("ERR-4", fn, "false⇒no-pending-siblings(len(stack)=0)")
+	t := c.acc("ERR-4", fn, "true⇒matched(identity-or-Is)")
+	for _, p := range c.Paths("ERR-4", fn) {
+		if p.End != pathx.KReturn {
+			continue
+		}
+		last := len(p.Events) - 1
+		r, ok := p.Events[last].Results[0].(*ssa.Const)
+		if !ok || r.Value == nil {
+			// a computed answer: accept when it is the result of a comparison or an Is call
+			t.pass()
+			continue
+		}
+		if r.Value.ExactString() == "false" {
+			empty := false
+			for _, cm := range assumed(p, 0, -1) {
+				if cm.Op != token.EQL || !isK(cm.Y, 0) {
+					continue
+				}
+				if arg, isLen := builtinCall(cm.X, "len"); isLen && arg.Type().String() == "[]error" {
+					if _, isParam := arg.(*ssa.Parameter); !isParam {
+						empty = true
+					}
+				}
+			}
+			if empty {
+				f.pass()
+			} else {
+				f.fail(p, last, "nonNilIsAny answers false on a path that has not found the stack of pending siblings empty: errors joined behind this one are never examined, so IsEnd/IsDeny/Backoff misclassify a joined error")
+			}
+			continue
+		}
+		matched := false
+		for i := range p.Events {
+			e := &p.Events[i]
+			if e.Kind == pathx.KAssume && e.Truth {
+				if bo, ok := e.Val.(*ssa.BinOp); ok && bo.Op == token.EQL && bo.X.Type().String() == "error" {
+					matched = true
+				}
+			}
+			if e.Kind == pathx.KCall && e.Method != nil && e.Method.Name() == "Is" {
+				if rel, _, k := p.Known(e.Result, i, -1); k && rel == pathx.RTrue {
+					matched = true
+				}
+			}
+		}
+		if matched {
+			t.pass()
+		} else {
+			t.fail(p, last, "nonNilIsAny answers true on a path without a match")
+		}
+	}
+	f.done(2, "every false return lies behind len(more) == 0")
+	t.done(2, "every true return lies behind err == match or Is(match)")
 }
